@@ -178,6 +178,16 @@ def check(ctx):
         prm = f.params[1]
         sp_ = find_stmt("_q = %s.split('.')" % prm, f.node)
         ok = len(sp_) == 1 and has_stmt('if %s is None:\n    return' % prm, f.node)
+        # second spelling: *parents, last = prop.split('.'); for part in parents: obj = obj.setdefault(part, {})
+        star = find_stmt("(*_ps, _last) = %s.split('.')" % prm, f.node)
+        if not ok and len(star) == 1 and has_stmt('if %s is None:\n    return' % prm, f.node):
+            ps_ = star[0][1]['_ps']
+            walk = find_stmt('for _x in %s:\n    _o = _o2.setdefault(_x, {})' % ps_, f.node) + \
+                find_stmt('for _x in %s:\n    _o = _o2.get(_x, {})' % ps_, f.node)
+            ok = len(walk) == 1
+            run.check(ok, 'R19r', f.where, f.qualname, 'dotted path walk, None disables',
+                      '%s does not walk the dotted counter path / honour a disabled (None) counter' % name)
+            continue
         if ok:
             q = sp_[0][1]['_q']
             ok = len(find_stmt('while len(%s) > 1:\n    _o = _o2.setdefault(%s.pop(0), {})' % (q, q), f.node)) + \
